@@ -238,9 +238,11 @@ def rule_none(ctx):
     n += 1
     # 2. phase one may have found nothing
     hp = lo.params[0]
-    first = lo.node.body[0] if not (isinstance(lo.node.body[0], ast.Expr) and isinstance(lo.node.body[0].value, ast.Constant)) else lo.node.body[1]
-    ok = isinstance(first, ast.If) and norm(first.test) == f'not {hp}' and isinstance(first.body[-1], ast.Return) and \
-        (first.body[-1].value is None or norm(first.body[-1].value) == 'None')
+    lcfg = ctx.cfg(lo)
+    guards = [s for s in lo.node.body if isinstance(s, ast.If) and norm(s.test) == f'not {hp}' and s.body and isinstance(s.body[-1], ast.Return)
+              and (s.body[-1].value is None or norm(s.body[-1].value) == 'None')]
+    users = [s for s in lo.own_nodes() if isinstance(s, ast.Assign) and hp in q.names_in(s.value)]
+    ok = len(guards) == 1 and bool(users) and all(lcfg.dominates(lcfg.node(guards[0]), lcfg.node(u)) for u in users)
     ctx.check(ok, 'C09.NONE', ctx.key(lo, None, 'no hashX found'), 'a prevout for which phase one found no row is answered None',
               'a prevout without a phase-one hit is not answered None first', loc=ctx.loc(lo, lo.node))
     n += 1
